@@ -2241,7 +2241,10 @@ class GroupBy:
         pd.Series
             Cumulative count for each group, same shape as input.
         """
-        return self._apply_rolling_or_cumulative_func("cumcount", self.group_ikey, mask)
+        # the values are only counted: a placeholder keeps the result int64 whatever the codes are
+        return self._apply_rolling_or_cumulative_func(
+            "cumcount", np.empty(len(self), dtype="int8"), mask
+        )
 
     @groupby_method(_CUMULATIVE_GB_DOCSTRING, "min")
     def cummin(
